@@ -235,6 +235,17 @@ func runC16(c *Ctx) {
 							}
 						}
 					}
+					// the same through a module callee that raises an explicit panic of its own (not recovered in it)
+					if call, ok := in.(*ssa.Call); ok {
+						if sc := call.Call.StaticCallee(); sc != nil && p.inModule(sc) && mayPanicExplicitly(p, sc, 0, map[*ssa.Function]bool{}) {
+							for l := range li.Held(in) {
+								if _, inh := li.Entry[l]; !li.Deferred[l] && !inh {
+									bad++
+									c.Ob("C16-D2", nm+"/panic-under/"+l+"/via/"+FuncName(sc), in.Pos(), false, FuncName(sc)+" raises an explicit panic on some path (the library's handler wrappers recover it) and is called while "+l+" is held by a non-deferred Lock: the mutex stays locked for ever")
+								}
+							}
+						}
+					}
 				}
 			}
 			if bad == 0 {
@@ -459,4 +470,28 @@ func findPath(adj map[string]map[string]orderEdge, from, to string) []string {
 
 func ast_IsExported(name string) bool {
 	return len(name) > 0 && name[0] >= 'A' && name[0] <= 'Z'
+}
+
+// mayPanicExplicitly: fn contains a panic(...) statement that is not under a deferred recover of fn, or calls
+// (statically, depth <= 2) a module function that does.
+func mayPanicExplicitly(p *Program, fn *ssa.Function, depth int, seen map[*ssa.Function]bool) bool {
+	if seen[fn] || depth > 2 || len(fn.Blocks) == 0 {
+		return false
+	}
+	seen[fn] = true
+	for _, b := range fn.Blocks {
+		for _, in := range b.Instrs {
+			switch x := in.(type) {
+			case *ssa.Panic:
+				if !recoveredAt(fn, in) {
+					return true
+				}
+			case *ssa.Call:
+				if sc := x.Call.StaticCallee(); sc != nil && p.inModule(sc) && !recoveredAt(fn, in) && mayPanicExplicitly(p, sc, depth+1, seen) {
+					return true
+				}
+			}
+		}
+	}
+	return false
 }
